@@ -11,6 +11,9 @@
 //! cube-group rotations with integer translations and one general rotation by 0.7 rad about (1,2,2) followed by
 //! (0.5,-1.25,2) - it turns every normal of the list and translates along it); transform_by itself is compared with the
 //! written-out image plane (R n, d + R n . t).
+//! ROUND 3: three more motions with TINY non-zero rotations (1e-7, 1e-6, 1e-5 rad; translations none / small / (1000,-500,250))
+//! and a fifth pose far from the origin (+(600,0,800): radius 1e3); Mesh::transform itself (the way the mesh is moved) is
+//! compared vertex by vertex with T * vertex for every mesh x motion.
 //! Constructors: the same solids rebuilt with Mesh::new_with_options(is_solid = true; the 4 merge / delete option pairs),
 //! Mesh::new_with_uv and create_box(.., true) - split areas must still sum to the original (a mesh that carries parry's
 //! pseudo-normals is CAPPED by parry's split).
@@ -176,6 +179,17 @@ fn check_section(r: &mut Report, name: &str, m: &Mesh, convex: bool, n: &Vector3
     curves.len()
 }
 
+/// the rigid motion of the mesh is performed by Mesh::transform: vertex i moves to T * vertex i, the faces are kept
+fn check_transform(r: &mut Report, name: &str, m: &Mesh, commute: &[(&str, Iso3)]) {
+    for (tn, t) in commute.iter() {
+        r.case();
+        let mm = moved(m, t);
+        let bad = if mm.vertices().len() != m.vertices().len() { Some(0) } else { mm.vertices().iter().zip(m.vertices().iter()).position(|(a, b)| !peq(a, &(t * b))) };
+        r.check(bad.is_none() && mm.faces() == m.faces(), "Mesh::transform (used to move the mesh together with the plane): vertex i of the moved mesh is T * vertex i, the faces are kept",
+            || { let k = bad.unwrap_or(0); format!("{} moved by {}: vertex {} ({:?}, {:?}, {:?}) became {:?}, T * vertex = {:?}", name, tn, k, m.vertices()[k].x, m.vertices()[k].y, m.vertices()[k].z, mm.vertices().get(k).map(|p| (p.x, p.y, p.z)), { let w = t * m.vertices()[k]; (w.x, w.y, w.z) }) });
+    }
+}
+
 /// (kind, area of the negative part, area of the positive part): kind 0 = Pair, -1 = Negative, 1 = Positive
 fn split_summary(m: &Mesh, pl: &Plane3) -> (i32, f64, f64) {
     match m.split(pl) {
@@ -285,13 +299,15 @@ fn box_row(k: usize, via_options: bool) -> (Mesh, Vec<(usize, usize)>) {
 }
 
 pub fn run() -> Option<Report> {
-    let mut r = Report::new("watertight meshes: box 2x3x4, triangular prism, tetrahedron (convex) and an L-shaped prism (non-convex, sections with two loops), in 4 poses (identity, translation, quarter turn about z + translation, third turn about (1,1,1)); planes: 17 normals (axis-aligned, all sign patterns of (1,1,1), (1,2,2)/3, (2,-3,6)/7, mixed-sign oblique ones) x offsets missing the mesh by 0.5, odd sixteenths of the extent, 0.25 and 2^-12 inside either end (single corners cut off, segments shorter than 1e-3); planes with a mesh vertex closer than 1e-5 skipped; section additionally compared after 4 further rigid motions (cube group + integer translations); split additionally on an open two-triangle strip; the plane of every moved configuration is produced by Plane3::transform_by (5 motions incl. a general one: rotation by 0.7 rad about (1,2,2) then +(0.5,-1.25,2)) and split is compared across them as well; the same solids built with Mesh::new_with_options(is_solid = true, 4 option pairs) / new_with_uv / create_box(.., true) in 2 poses x 9 normals x 6 offsets; 2, 5, 6 and 10 disjoint boxes in one mesh (appended, or new_with_options is_solid = true) in 2 poses x 7 normals x 9 offsets: as many closed loops as boxes crossed; tolerance 1e-9 relative");
+    let mut r = Report::new("watertight meshes: box 2x3x4, triangular prism, tetrahedron (convex) and an L-shaped prism (non-convex, sections with two loops), in 5 poses (identity, translation, quarter turn about z + translation, third turn about (1,1,1), quarter turn about x + (600,0,800) = far from the origin); planes: 17 normals (axis-aligned, all sign patterns of (1,1,1), (1,2,2)/3, (2,-3,6)/7, mixed-sign oblique ones) x offsets missing the mesh by 0.5, odd sixteenths of the extent, 0.25 and 2^-12 inside either end (single corners cut off, segments shorter than 1e-3); planes with a mesh vertex closer than 1e-5 skipped; section additionally compared after 8 further rigid motions (cube group + integer translations, a general one, three tiny ones); split additionally on an open two-triangle strip; the plane of every moved configuration is produced by Plane3::transform_by (8 motions incl. a general one: rotation by 0.7 rad about (1,2,2) then +(0.5,-1.25,2), and three with TINY non-zero rotations: 1e-6 rad about (1,2,2) then +(0.5,-1.25,2), 1e-7 rad about z, -1e-5 rad about (1,-1,0) then +(1000,-500,250); Mesh::transform is compared vertex by vertex with T * vertex for every mesh x motion) and split is compared across them as well; the same solids built with Mesh::new_with_options(is_solid = true, 4 option pairs) / new_with_uv / create_box(.., true) in 2 poses x 9 normals x 6 offsets; 2, 5, 6 and 10 disjoint boxes in one mesh (appended, or new_with_options is_solid = true) in 2 poses x 7 normals x 9 offsets: as many closed loops as boxes crossed; tolerance 1e-9 relative");
     let q = |ax: Vector3, ang: f64| UnitQuaternion::from_axis_angle(&UnitVec3::new_normalize(ax), ang);
     let poses: Vec<(&str, Iso3)> = vec![
         ("identity", Iso3::identity()),
         ("+(1,-2,3)", Iso3::translation(1.0, -2.0, 3.0)),
         ("Rz90 then +(-4,0.5,2)", Iso3::from_parts(Translation3::new(-4.0, 0.5, 2.0), q(Vector3::z(), PI / 2.0))),
         ("R(1,1,1)120", Iso3::from_parts(Translation3::new(0.0, 0.0, 0.0), q(Vector3::new(1.0, 1.0, 1.0), 2.0 * PI / 3.0))),
+        // far from the origin (radius 1e3): a tiny rotation about the origin moves the mesh by 1e-4 .. 1e-2
+        ("Rx90 then +(600,0,800)", Iso3::from_parts(Translation3::new(600.0, 0.0, 800.0), q(Vector3::x(), PI / 2.0))),
     ];
     let commute: Vec<(&str, Iso3)> = vec![
         ("Rx90", Iso3::from_parts(Translation3::new(0.0, 0.0, 0.0), q(Vector3::x(), PI / 2.0))),
@@ -300,6 +316,11 @@ pub fn run() -> Option<Report> {
         ("R(1,1,1)240 then +(-3,0,7)", Iso3::from_parts(Translation3::new(-3.0, 0.0, 7.0), q(Vector3::new(1.0, 1.0, 1.0), 4.0 * PI / 3.0))),
         // a general motion: rotates every normal of the list and translates along every one of them
         ("R(1,2,2)0.7rad then +(0.5,-1.25,2)", Iso3::from_parts(Translation3::new(0.5, -1.25, 2.0), q(Vector3::new(1.0, 2.0, 2.0), 0.7))),
+        // TINY but non-zero rotations (the quaternion's scalar part differs from 1 by less than 1e-10): a residual fine-alignment
+        // correction; with and without a translation
+        ("tiny: 1e-6 rad about (1,2,2) then +(0.5,-1.25,2)", Iso3::from_parts(Translation3::new(0.5, -1.25, 2.0), q(Vector3::new(1.0, 2.0, 2.0), 1.0e-6))),
+        ("tiny: 1e-7 rad about z, no translation", Iso3::from_parts(Translation3::new(0.0, 0.0, 0.0), q(Vector3::z(), 1.0e-7))),
+        ("tiny: -1e-5 rad about (1,-1,0) then +(1000,-500,250)", Iso3::from_parts(Translation3::new(1000.0, -500.0, 250.0), q(Vector3::new(1.0, -1.0, 0.0), -1.0e-5))),
     ];
     let nv = |x: f64, y: f64, z: f64| Vector3::new(x, y, z).normalize();
     let normals = vec![
@@ -314,6 +335,7 @@ pub fn run() -> Option<Report> {
         for (pname, pose) in poses.iter() {
             let m = moved(base, pose);
             let name = format!("{} in pose {}", mname, pname);
+            check_transform(&mut r, &name, &m, &commute);
             for n in normals.iter() {
                 let s: Vec<f64> = m.vertices().iter().map(|p| n.dot(&p.coords)).collect();
                 let lo = s.iter().cloned().fold(f64::INFINITY, f64::min);
